@@ -21,7 +21,7 @@ Modelling conventions
   * `for (T i = a; i < b; i++)` is `List.foldl` over `intRange a b` with the assigned variables as state
   * reference out-parameters become a result tuple; `throw` becomes `Res.throw "<exception type>"`
 """
-import re, sys, os
+import re, os, sys, os
 
 class XlateError(Exception):
     pass
@@ -830,8 +830,31 @@ def parse_sort_switch(fn, sw):
     if not default_throws: raise XlateError('switch without throwing default')
     return cond, groups
 
+def check_sort_class(tu):
+    """`SortEigenvalue`: the comparator handed to std::sort must be exactly `get(m_evals[i]) < get(m_evals[j])` (a strict weak order
+    on the keys, nothing else), and the constructor exactly: fill the index vector with 0..size-1, then std::sort over the whole
+    vector with `*this`.  The generated `sortIdx (fun i j => Sc.lt (key ..) (key ..))` ASSUMES this shape; it is checked here
+    against the source on every run."""
+    import astdump
+    src = open(os.path.join(astdump.INC, 'Spectra', 'Util', 'SelectionRule.h')).read()
+    m = re.search(r'class\s+SortEigenvalue\b(.*?)\n\};', src, re.S)
+    if not m: raise XlateError('class SortEigenvalue not found')
+    body = re.sub(r'//[^\n]*', '', m.group(1)); body = re.sub(r'/\*.*?\*/', '', body, flags=re.S)
+    flat = re.sub(r'\s+', '', body)
+    op = re.search(r'booloperator\(\)\(Indexi,Indexj\)(const)?\{(.*?)\}', flat)
+    if not op: raise XlateError('SortEigenvalue::operator()(Index i, Index j) not found')
+    if op.group(2) != 'returnSortingTarget<T,Rule>::get(m_evals[i])<SortingTarget<T,Rule>::get(m_evals[j]);':
+        raise XlateError('SortEigenvalue comparator is not `get(m_evals[i]) < get(m_evals[j])`: ' + op.group(2)[:120])
+    ctor = re.search(r'SortEigenvalue\(constT\*start,Indexsize\):m_evals\(start\),m_index\(size\)\{(.*?)\}inline', flat)
+    if not ctor: raise XlateError('SortEigenvalue constructor not of the expected form')
+    if ctor.group(1) != 'for(Indexi=0;i<size;i++){m_index[i]=i;}std::sort(m_index.begin(),m_index.end(),*this);':
+        raise XlateError('SortEigenvalue constructor body is not `fill 0..size-1; std::sort(begin, end, *this)`: ' + ctor.group(1)[:160])
+    # no static / thread_local / mutable state in the class
+    if re.search(r'\b(static|thread_local|mutable)\b', body): raise XlateError('SortEigenvalue has static/thread_local/mutable state')
+
 def sort_switch_hook(fn, s, env, out, ind, rest, final):
     if s['kind'] != 'SwitchStmt': return None
+    check_sort_class(fn.tu)
     cond, groups = parse_sort_switch(fn, s)
     c, ck = fn.expr(cond, env)
     fam = groups[0][2]; tgt = groups[0][5]
